@@ -607,7 +607,7 @@ func c36cVirtualClock(r *vlib.Run, env *c36Env) int {
 			r.Outcome(fmt.Sprintf("V-ok/allowed=%d-of-%d", nallowed, len(sched)))
 
 			if len(sched) == 2*x.b+2 && sched[0] == 0 && sched[len(sched)-1] == 4 {
-				r.Sample(map[string]any{"rule": fmt.Sprintf("%d/%s", x.b, x.d), "schedule_grid_index": sched, "allowed": allowedAt})
+				r.Sample(map[string]any{"rule": fmt.Sprintf("%d/%s", x.b, x.d), "schedule_grid_index": append([]int{}, sched...), "allowed": allowedAt})
 			}
 		}
 
